@@ -27,7 +27,7 @@ func register(v ...variant) { registry = append(registry, v...) }
 // groupWeights: share of the random phase per generator group (first component of the family).
 var groupWeights = map[string]int{
 	"resname": 8, "offsets": 4, "digest": 10, "splice": 2, "payload": 5, "rawproto": 6, "fetch": 5, "stored": 5,
-	"wseq": 10, "abort": 10, "http": 14, "httpraw": 6, "grpcraw": 2, "disk": 9, "misc": 1,
+	"wseq": 10, "abort": 10, "http": 14, "httpraw": 6, "grpcraw": 2, "disk": 9, "misc": 1, "proxy": 24, "upsize": 6,
 }
 
 func groupOf(fam string) string {
